@@ -182,6 +182,7 @@ PROPS["C16"] = dict(
     bounded=[("c16_regions_small_grids", {"quick": 60, "thorough": 900}), ("c16_regions_random", {"quick": 30, "thorough": 300})],
 )
 PROPS["C15"] = dict(
+    allow_no_contracts=True,
     level="exploration",
     technique="bounded: point-in-polygon rasterisation round trip, exhaustive over small rasters and random larger ones (JIT on); contract-level proofs for the local helpers (_transform_points, _min_and_max, _outside_domain)",
     not_decided=["losslessness / orientation / area are topological facts about the boundary walk (_follow) and region merging: bounded only"],
